@@ -38,11 +38,12 @@ func (q *vQueue) Add(item interface{}) {
 func (q *vQueue) AddRateLimited(item interface{}) {
 	q.log = append(q.log, fmt.Sprintf("addRateLimited %v", item))
 }
+
 // NumRequeues: how often the key has failed before is arbitrary.
 func (q *vQueue) NumRequeues(item interface{}) int { return sym.IntIn("requeues", 0, 40) }
-func (q *vQueue) Forget(item interface{}) { q.log = append(q.log, fmt.Sprintf("forget %v", item)) }
-func (q *vQueue) Done(item interface{})   { q.log = append(q.log, fmt.Sprintf("done %v", item)) }
-func (q *vQueue) ShutDown()               {}
+func (q *vQueue) Forget(item interface{})          { q.log = append(q.log, fmt.Sprintf("forget %v", item)) }
+func (q *vQueue) Done(item interface{})            { q.log = append(q.log, fmt.Sprintf("done %v", item)) }
+func (q *vQueue) ShutDown()                        {}
 func (q *vQueue) Get() (interface{}, bool) {
 	if len(q.items) == 0 {
 		return nil, true
@@ -166,6 +167,15 @@ func VH_Events(a []int) {
 		w.sets = append(w.sets, s3)
 		sym.Disc("invalid-selector-in-namespace")
 	}
+	neg := opts&2 != 0
+	if neg {
+		// a set whose selector is a negative expression matches pods that lack the key
+		s4 := vNewSet(1)
+		s4.Name, s4.UID = "neg", "uid-neg"
+		s4.Spec.Selector = &metav1.LabelSelector{MatchExpressions: []metav1.LabelSelectorRequirement{{Key: "app", Operator: metav1.LabelSelectorOpNotIn, Values: []string{"other"}}}}
+		w.sets = append(w.sets, s4)
+		sym.Cover("a set with a NotIn selector lives in the namespace")
+	}
 	// the controller as its constructor wires it; events go through the registered handlers
 	x := vNewWiredController(w)
 	q := x.q
@@ -176,6 +186,7 @@ func VH_Events(a []int) {
 	podH, setH := x.pods.handlers[0], x.sets.handlers[0]
 
 	var want []string
+	vWantsMatch := false // the event falls back to selector matching (unowned pod)
 	kind := sym.Pick("event", 8)
 	switch kind {
 	case 0: // add
@@ -189,6 +200,7 @@ func VH_Events(a []int) {
 			want = p.ownerKeys()
 		default:
 			want = p.matchKeys()
+			vWantsMatch = p.labels != 0 // the lister never matches a pod without labels (upstream contract)
 		}
 	case 1: // update
 		o := vEvtBuildPod("old")
@@ -208,6 +220,7 @@ func VH_Events(a []int) {
 				want = vUnion(want, n.ownerKeys())
 			} else if ownerChanged || o.labels != n.labels {
 				want = vUnion(want, n.matchKeys())
+				vWantsMatch = n.labels != 0
 			}
 		}
 	case 2: // delete
@@ -295,6 +308,9 @@ func VH_Events(a []int) {
 			want = vDedup(q.added())
 			sym.Assert(len(want) <= 1 && (len(want) == 0 || want[0] == vNS+"/"+vSetName), "C16", "exactly the sets the event concerns are enqueued")
 		}
+	}
+	if neg && vWantsMatch {
+		want = append(want, vNS+"/neg")
 	}
 	want = vDedup(want)
 	got := vDedup(q.added())
